@@ -6,6 +6,7 @@
 -/
 import J1939.Lemmas.Trace21
 import J1939.Lemmas.Bam21
+import J1939.Lemmas.Rts21
 namespace J1939.Props.C01
 open J1939 J1939.Gen J1939.Dll21 J1939.Lemmas
 
@@ -200,5 +201,130 @@ example : (sendPgn {} {} 1000 0 254 202 6 128 (List.range 20)).2 = true ∧
     Due {} (1000 + ({} : Cfg).bamInterval) [51000, 101000, 160000] ∧ Tp21.num_packets (List.range 20).length = 3 := by
   refine ⟨by decide, by decide, ?_, by decide⟩
   simp [Due, Const.Default.bam_interval_21]
+
+/-! ### Connection mode (RTS/CTS) from end to end -/
+
+/-- DISPATCH of the stack's own TP frames: the identifier the builders compose (priority, PF 236/235, destination, source)
+    is parsed back to exactly those fields, and `notify` hands the frame to `_process_tp_cm` / `_process_tp_dt` with that
+    destination whenever the destination is global or locally accepted — the tie between the frames on the wire and the
+    handler-level statements below -/
+theorem c01_tp_dispatch (cfg : Cfg) (s : St) (now : Nat) (acc : Nat → Bool) (prio da sa : Nat) (data : List Nat)
+    (hp : prio < 8) (hda : da < 256) (hsa : sa < 256) (hacc : da = 255 ∨ acc da = true) :
+    let idCm := MessageId.can_id (MessageId.ofFields prio (PGN.value (PGN.ofFields 0 236 da)) sa)
+    let idDt := MessageId.can_id (MessageId.ofFields prio (PGN.value (PGN.ofFields 0 235 da)) sa)
+    (MessageId.ofCanId idCm).source_address = sa ∧ (MessageId.ofCanId idCm).priority = prio ∧
+    (MessageId.ofCanId idDt).source_address = sa ∧ (MessageId.ofCanId idDt).priority = prio ∧
+    notify cfg s now acc idCm data = processCm cfg s now (MessageId.ofCanId idCm) da data ∧
+    notify cfg s now acc idDt data = processDt s now (MessageId.ofCanId idDt) da data :=
+  tp_dispatch cfg s now acc prio da sa data hp hda hsa hacc
+
+/-- ONE ROUND of a running session (originator: packets 0 … j−1 out, may send up to packet `wn`; responder: holds
+    exactly those j packets, its window ends at `wn`): the round either keeps this invariant with MORE packets
+    transferred and nothing delivered, or completes the transfer — one delivery of the byte-identical message, the
+    responder's record gone, one acknowledgement reported, the originator's record finished and due -/
+theorem c01_rtscts_round (cfgO : Cfg) (midO midR : MessageId) (data : List Nat) (pgn mr : Nat) (hlen : 0 < data.length)
+    (hmax : data.length ≤ 1785) (hp : pgn < 16777216) (hd : midR.source_address ≠ Const.Addr.GLOBAL) (hmr : 0 < mr)
+    (x : Nat × Nat × Nat) (sO sR : St) (j wn : Nat) (b : Snd) (r : Rcv)
+    (hj : j ≤ wn) (hwn : wn < Tp21.num_packets data.length)
+    (hb : sO.snd.get? (Tp21.buffer_hash midO.source_address midR.source_address) = some b)
+    (hr : sR.rcv.get? (Tp21.buffer_hash midO.source_address midR.source_address) = some r)
+    (ob : OInv data j wn b) (rb : RInv data pgn j (wn + 1) mr r)
+    (hdue : b.deadline ≤ x.1) (ht : 0 < x.1) (htO : 0 < x.2.2) :
+    ∃ sO' sR' oR oO, round cfgO midO midR x sO sR = some (sO', sR', oR, oO) ∧
+      ((∃ j' wn' b' r', j < j' ∧ j' ≤ wn' ∧ wn' < Tp21.num_packets data.length ∧
+          sO'.snd.get? (Tp21.buffer_hash midO.source_address midR.source_address) = some b' ∧
+          sR'.rcv.get? (Tp21.buffer_hash midO.source_address midR.source_address) = some r' ∧
+          OInv data j' wn' b' ∧ RInv data pgn j' (wn' + 1) mr r' ∧
+          b'.deadline ≤ max x.2.2 (x.1 + cfgO.cmdtInterval.getD 0) ∧ deliveries oR = [] ∧ deliveries oO = []) ∨
+       (deliveries oR = [(midO.priority, pgn, midO.source_address, midR.source_address, data)] ∧
+        sR'.rcv.get? (Tp21.buffer_hash midO.source_address midR.source_address) = none ∧
+        deliveries oO = [(midR.priority, pgn, midR.source_address, midO.source_address,
+          (Tp21.eom_ack midR.source_address midO.source_address data.length (Tp21.num_packets data.length) pgn).data)] ∧
+        ∃ bf, sO'.snd.get? (Tp21.buffer_hash midO.source_address midR.source_address) = some bf ∧
+          bf.state = S_FINISHED ∧ bf.deadline = x.2.2)) :=
+  round_step cfgO midO midR data pgn mr hlen hmax hp hd hmr x sO sR j wn b r hj hwn hb hr ob rb hdue ht htO
+
+/-- RTS/CTS FROM END TO END (J1939-21, handlers atomic, no timeouts): an accepted destination-specific message of
+    9 … 1785 bytes; the responder (pair free, any other state, its own window limit ≥ 1) handles the RTS, the originator
+    handles the CTS, and then ROUNDS follow — originator pass, the responder handles that pass's TP.DT frames in order,
+    the originator handles the answers — under ANY schedule that finds the record due each time (`Sched`), whatever the
+    two window limits and the originator's minimum packet interval (whole windows per pass or one packet per pass).
+    After at most ⌈len/7⌉ + 1 rounds: the responder has delivered the message EXACTLY ONCE — announced PGN, originator's
+    address, its own address, byte-identical payload —, the originator has reported exactly one EndOfMsgACK, and
+    neither side keeps a session record.  (`midC`/`midO`/`midR`: the parsed identifiers of the originator's TP.CM, its
+    TP.DT and the responder's frames; `c01_tp_dispatch` ties them to the frames' identifiers and to `notify`.) -/
+theorem c01_rtscts_end_to_end (cfgO cfgR : Cfg) (sO sR : St) (midC midO midR : MessageId) (t0 tR tO dp pf prio : Nat) (data : List Nat)
+    (hl : 8 < data.length) (hmax : data.length ≤ 1785) (hcO : 0 < cfgO.maxCmdt) (hcR : 0 < cfgR.maxCmdt)
+    (hsrc : midC.source_address = midO.source_address)
+    (hb : (midR.source_address == Const.Addr.GLOBAL || PGN.is_pdu2_format (PGN.ofFields 0 pf midR.source_address)) = false)
+    (hacc : (sendPgn cfgO sO t0 dp pf midR.source_address prio midO.source_address data).2 = true)
+    (hfree : sR.rcv.contains (Tp21.buffer_hash midO.source_address midR.source_address) = false)
+    (htO : 0 < tO) (xs : List (Nat × Nat × Nat)) (hsched : Sched cfgO tO xs)
+    (hxs : Tp21.num_packets data.length + 1 ≤ xs.length) :
+    let r0 := (sendPgn cfgO sO t0 dp pf midR.source_address prio midO.source_address data).1
+    let a1 := answer cfgR tR midC midR.source_address sR (txFrames r0.outs)
+    let a2 := answer cfgO tO midR midO.source_address r0.st (txFrames a1.2)
+    let q := run cfgO midO midR xs a2.1 a1.1
+    deliveries (a1.2 ++ q.2.2.1) =
+      [(midO.priority, rtsPgn dp pf midR.source_address, midO.source_address, midR.source_address, data)] ∧
+    q.2.1.rcv.get? (Tp21.buffer_hash midO.source_address midR.source_address) = none ∧
+    deliveries (a2.2 ++ q.2.2.2) =
+      [(midR.priority, rtsPgn dp pf midR.source_address, midR.source_address, midO.source_address,
+        (Tp21.eom_ack midR.source_address midO.source_address data.length (Tp21.num_packets data.length)
+          (rtsPgn dp pf midR.source_address)).data)] ∧
+    q.1.snd.get? (Tp21.buffer_hash midO.source_address midR.source_address) = none := by
+  intro r0 a1 a2 q
+  have hd : midR.source_address ≠ Const.Addr.GLOBAL := by
+    intro h; simp [h] at hb
+  have hn : 0 < Tp21.num_packets data.length := by
+    have := (num_packets_spec data.length).1; omega
+  have hn255 : Tp21.num_packets data.length < 256 := by
+    have := (num_packets_le_255 data.length).2 hmax; omega
+  have hr0 : r0 = _ := sendPgn_rts cfgO sO t0 dp pf midR.source_address prio midO.source_address data hl hb hacc
+  -- the responder and the RTS
+  have hrts := rts_accepted cfgR sR tR midC midR.source_address prio (rtsPgn dp pf midR.source_address) data.length
+    (Tp21.num_packets data.length) (min cfgO.maxCmdt (Tp21.num_packets data.length)) (by omega) hn255 (by omega)
+    (rtsPgn_lt dp pf midR.source_address) (by rw [hsrc]; exact hfree)
+  rw [hsrc] at hrts
+  generalize hg : min cfgR.maxCmdt (min (min cfgO.maxCmdt (Tp21.num_packets data.length)) (Tp21.num_packets data.length)) = g at hrts
+  have hg1 : 0 < g := by omega
+  have hgn : g ≤ Tp21.num_packets data.length := by omega
+  let rR : Rcv := { pgn := rtsPgn dp pf midR.source_address, messageSize := data.length,
+                    numPackages := Tp21.num_packets data.length, nextPacket := g, maxCmdt := cfgR.maxCmdt, maxRec := some g,
+                    data := [], deadline := tR + Const.T21.T2, src := midO.source_address, dest := midR.source_address }
+  have ha1 : a1 = ({ sR with rcv := sR.rcv.set (Tp21.buffer_hash midO.source_address midR.source_address) rR },
+      [Out.tx (Tp21.cts midR.source_address midO.source_address g 1 (rtsPgn dp pf midR.source_address)), Out.wake]) := by
+    simp only [a1, hr0, txFrames, List.filterMap_cons, List.filterMap_nil, answer]
+    rw [hrts]
+    rfl
+  -- the originator and the first CTS
+  have hcts := cts_accepted cfgO r0.st tO midR midO.source_address (rtsRec t0 dp pf midR.source_address prio midO.source_address data)
+    g (rtsPgn dp pf midR.source_address) (by rw [hr0]; exact PyDict.get?_set_self _ _ _) hg1 (by simp only [rtsRec]; omega)
+  let bN : Snd := { rtsRec t0 dp pf midR.source_address prio midO.source_address data with
+                    waitOn := some (((0 + g - 1 : Nat) : Int)), state := S_SENDING_IN_CTS, deadline := tO }
+  have ha2 : a2 = ({ r0.st with snd := r0.st.snd.set (Tp21.buffer_hash midO.source_address midR.source_address) bN }, [Out.wake]) := by
+    simp only [a2, ha1, txFrames, List.filterMap_cons, List.filterMap_nil, answer]
+    have : (rtsRec t0 dp pf midR.source_address prio midO.source_address data).next + 1 = 1 := rfl
+    rw [this] at hcts
+    rw [hcts]
+    rfl
+  have hrun := run_delivers cfgO midO midR data (rtsPgn dp pf midR.source_address) g (by omega) hmax (rtsPgn_lt _ _ _) hd hg1
+    (Tp21.num_packets data.length) xs a2.1 a1.1 0 (g - 1) tO bN rR (by omega) (by omega) (by omega)
+    (by rw [ha2]; exact PyDict.get?_set_self _ _ _) (by rw [ha1]; exact PyDict.get?_set_self _ _ _)
+    ⟨rfl, rfl, rfl, rfl, by show some (((0 + g - 1 : Nat) : Int)) = some (((g - 1 : Nat) : Int)); congr 2; omega, by show tO ≠ 0; omega⟩
+    ⟨rfl, rfl, rfl, by show g = g - 1 + 1; omega, rfl, rfl⟩ (by show tO ≤ tO; omega) hsched hxs
+  obtain ⟨i1, i2, i3, i4⟩ := hrun
+  refine ⟨?_, i2, ?_, i4⟩
+  · rw [deliveries_append, i1, ha1]; simp [deliveries]
+  · rw [deliveries_append, i3, ha2]; simp [deliveries]
+
+/-- the hypotheses of `c01_rtscts_end_to_end` are satisfiable: a 20-byte PDU1 message 0x80 → 0x90 on empty stacks,
+    four rounds 10 ms apart -/
+example : (sendPgn {} {} 1000 0 239 0x90 6 0x80 (List.range 20)).2 = true ∧
+    (0x90 == Const.Addr.GLOBAL || PGN.is_pdu2_format (PGN.ofFields 0 239 0x90)) = false ∧
+    Sched {} 3000 [(10000, 10001, 10002), (20000, 20001, 20002), (30000, 30001, 30002), (40000, 40001, 40002)] ∧
+    Tp21.num_packets (List.range 20).length + 1 ≤ 4 := by
+  refine ⟨by decide, by decide, ?_, by decide⟩
+  simp [Sched]
 
 end J1939.Props.C01
